@@ -488,7 +488,7 @@ def _iter_base(e):
             e = peel_clone(e["e"])
         elif e.get("k") == "MethodCall" and e["m"] in (
                 "iter", "iter_mut", "into_iter", "zip", "enumerate", "rev", "map", "as_ref", "last", "unwrap", "first",
-                "collect", "filter", "cloned", "copied"):
+                "collect", "filter", "cloned", "copied", "keys", "values"):
             e = peel_clone(e["recv"])
         else:
             break
